@@ -262,14 +262,20 @@ class Rig:
             finally:
                 b.close()
         stats, _key = self.emain.stats_for(ADDR)
-        a.sendall(stream)
-        a.shutdown(socket.SHUT_WR)
         t = threading.Thread(target=run, daemon=True)
         t.start()
+        try:
+            a.sendall(stream)        # every request is written (and the write side shut) before any reply is read
+            a.shutdown(socket.SHUT_WR)
+        except OSError:              # the server has already ended the session and closed
+            pass
         got = b""
         a.settimeout(20)
         while True:
-            blk = a.recv(65536)
+            try:
+                blk = a.recv(65536)
+            except ConnectionResetError:     # the server closed with requests still unread (session ended early)
+                break
             if not blk:
                 break
             got += blk
